@@ -258,7 +258,7 @@ def _clause(ev, expected, diag):
 
 
 def validate_traces(chk: Check, traces, site, report=True):
-    stats, rej = tracecheck.validate("HooksTrace", traces, shards=8)
+    stats, rej = tracecheck.validate("HooksTrace", traces, shards=6)
     if report:
         chk.traces += len(traces)
         chk.transitions += stats["generated"]
@@ -352,7 +352,7 @@ def run(tier: str, seed: int) -> int:
     if not quick:
         mc.append(("life-2hooks-counted-d6", consts(2, {"hook_both", "ctx_pre", "state_post", "state_pre_p"},
                                                     {"TT", "TF"}, cf=True, depth=6)))
-    ex = ThreadPoolExecutor(max_workers=6)
+    ex = ThreadPoolExecutor(max_workers=5)
     mcf = submit_mc(ex, mc)
 
     # ---- A
